@@ -30,7 +30,7 @@ pub struct XmlDoc {
     pub tags: Vec<TagInfo>,
 }
 
-const PREFIXES: &[&str] = &["a", "b", "p", "xml", "xmlns"];
+const PREFIXES: &[&str] = &["a", "b", "a", "b", "p", "a", "xml", "xmlns"];
 const LOCALS: &[&str] = &["x", "y", "z", "script", "xmlns", "e"];
 const URIS: &[&str] = &["u1", "u2", "", XML_NS, XMLNS_NS, "u1"];
 const VALUES: &[&str] = &["", "v", "1", "a b", "&amp;", "&lt;", "&#13;", "&#9;", "'", "&quot;", "é", ">", "\t", "\n"];
@@ -87,12 +87,21 @@ impl<'a, 'b> Gen<'a, 'b> {
                 },
                 _ => {
                     let prefix = self.gen_prefix();
-                    attrs.push(SrcAttr {
-                        prefix,
-                        local: self.s.pick(LOCALS).to_string(),
-                        value: self.s.pick(VALUES).to_string(),
-                    });
+                    let local = self.s.pick(LOCALS).to_string();
+                    // a declaration-shaped name gets a URI value (no references to decode)
+                    let decl_shaped = prefix.as_deref() == Some("xmlns") || (prefix.is_none() && local == "xmlns");
+                    let value = if decl_shaped { self.s.pick(URIS).to_string() } else { self.s.pick(VALUES).to_string() };
+                    attrs.push(SrcAttr { prefix, local, value });
                 },
+            }
+        }
+        if id == 0 && self.s.chance(200) {
+            // the root usually binds the common prefixes so that most uses are bound
+            for p in ["a", "b", "p"] {
+                if self.s.chance(200) {
+                    let at = self.s.below(attrs.len() + 1);
+                    attrs.insert(at, SrcAttr { prefix: Some("xmlns".into()), local: p.into(), value: self.s.pick(&["u1", "u2"]).to_string() });
+                }
             }
         }
         let at = self.s.below(attrs.len() + 1);
@@ -137,7 +146,7 @@ impl<'a, 'b> Gen<'a, 'b> {
             return;
         }
         self.out.push('>');
-        let kids = if depth > 5 { 0 } else { self.s.len(4) };
+        let kids = if depth > 6 { 0 } else { 1 + self.s.len(4) };
         for _ in 0..kids {
             self.node(depth + 1);
         }
